@@ -184,6 +184,14 @@ STRUCTURED.append(('a variable defined through another placeholder, used twice i
                    '[Variables]\nzGd : ${Species:Gd.atomic_number}\nrho : 0.3\nrho_OO : ${rho}\nA1 : 1000.0\nA2 : 1000.0\n\n[Species]\nGd.atomic_number : 64\n\n' + _P +
                    '[Pair]\nGd-Gd : as.zbl ${zGd} ${zGd}\nO-O : sum(as.buck ${A1} ${rho_OO} 0.0, as.buck ${A2} ${rho_OO} 32.0)\nGd-O : as.buck ${A1} ${rho} ${zGd}\n',
                    '[Species]\nGd.atomic_number : 64\n\n' + _P + '[Pair]\nGd-Gd : as.zbl 64 64\nO-O : sum(as.buck 1000.0 0.3 0.0, as.buck 1000.0 0.3 32.0)\nGd-O : as.buck 1000.0 0.3 64\n', []))
+_T12 = ''.join('t%d : as.polynomial ${c%d} 0.%d\nc%d : %d.5\n' % (i, i, i + 1, i, i) for i in range(12))
+STRUCTURED.append(('twelve sibling placeholders in one value, each defined through a further placeholder',
+                   '[Variables]\n' + _T12 + '\n' + _P + '[Pair]\nO-O : sum(' + ', '.join('${t%d}' % i for i in range(12)) + ')\nU-O : as.lj 0.2 2.5\n',
+                   _P + '[Pair]\nO-O : sum(' + ', '.join('as.polynomial %d.5 0.%d' % (i, i + 1) for i in range(12)) + ')\nU-O : as.lj 0.2 2.5\n', []))
+STRUCTURED.append(('a parameter store section whose keys are named like [Variables] entries, reached through a nested placeholder',
+                   '[Variables]\nrho : 0.25\ncutoff : 6.0\nrho_max : ${Tabulation:cutoff}\n\n[Buck]\nA : 1388.773\nrho : 0.3623\nC : 175.0\nparams : ${A} ${rho} ${C}\n\n' + _P +
+                   '[Pair]\nO-O : as.buck ${Buck:params}\nU-O : as.buck 800.0 ${rho} 0.0\nU-U : >0 as.lj 0.2 ${rho_max} >=${cutoff} as.zero\n',
+                   _P + '[Pair]\nO-O : as.buck 1388.773 0.3623 175.0\nU-O : as.buck 800.0 0.25 0.0\nU-U : >0 as.lj 0.2 2.0 >=6.0 as.zero\n', []))
 _E = '[Tabulation]\ntarget : setfl\nnr : 4\ndr : 0.5\nnrho : 4\ndrho : %s\n\n[EAM-Embed]\nAl : >=0 as.polynomial 0.1 -1.0 0.01\nCu : %s\n\n[EAM-Density]\nAl : >=0 as.exp_spline 1.1 -1.1 0.03 0 0 0 0.1\nCu : >=0 as.exp_spline 0.9 -1.0 0.02 0 0 0 0.05\n\n[Pair]\nCu-Al : >=0 as.morse 1.3 3.0 0.35\n'
 _S = '[Species]\nAl.lattice_type%sbcc\nAl.atomic_mass%s30.0\nCu.lattice_constant%s3.61\n\n'
 STRUCTURED.append(('every value of [Tabulation] / [Species] / [EAM-*] starts on the line after its key (no placeholders at all)',
